@@ -36,6 +36,9 @@ Definition g_remove_node (g : digraph) (x : node) : digraph :=
 (* remove_edge(p, x) for every predecessor p of x (DAG.do) *)
 Definition g_remove_in_edges (g : digraph) (x : node) : digraph :=
   {| nodes := nodes g; edges := filter (fun e => negb (Nat.eqb (snd e) x)) (edges g) |}.
+(* networkx remove_edge(u, v) *)
+Definition g_remove_edge (g : digraph) (u v : node) : digraph :=
+  {| nodes := nodes g; edges := filter (fun e => negb (edge_eqb e (u, v))) (edges g) |}.
 (* G.edges(): for u in node order, for v in successor insertion order *)
 Definition g_edges_view (g : digraph) : list (node * node) :=
   flat_map (fun u => map (fun v => (u, v)) (children g u)) (nodes g).
@@ -57,6 +60,15 @@ Fixpoint bn_add_edges_g (g : digraph) (es : list (node * node)) : digraph * out 
                    | None => (g, Err EValue)
                    | Some g' => bn_add_edges_g g' r
                    end
+  end.
+
+(* the removal methods BayesianNetwork inherits from networkx unchanged: remove_edge (strict: a missing
+   edge raises NetworkXError) and remove_edges_from (missing edges are skipped silently) *)
+Fixpoint bn_remove_edges_g (g : digraph) (es : list (node * node)) (strict : bool) : digraph * out :=
+  match es with
+  | [] => (g, Ok)
+  | (u, v) :: r => if has_edge g u v then bn_remove_edges_g (g_remove_edge g u v) r strict
+                   else if strict then (g, Err ENx) else bn_remove_edges_g g r strict
   end.
 
 (* DAG(ebunch): plain networkx insertion (no per-edge check), then nx.find_cycle *)
@@ -147,13 +159,17 @@ Fixpoint asg_of (vars : list node) (idx : list nat) (x : node) : nat :=
   end.
 Definition card_of (c : cpd) (x : node) : nat := asg_of (c_scope c) (c_vcard c :: c_ecard c) x.
 Definition Qc_eqb (a b : Qc) : bool := Qeq_bool (this a) (this b).
-(* DiscreteFactor.__eq__ for factors with default state names: same scope set, same cardinality per
-   variable, same value at every named assignment (exact equality; the harness keeps distinct values
-   far apart compared with numpy's atol) *)
+Definition Qc_abs (q : Qc) : Qc := if Qle_bool 0 (this q) then q else Qcopp q.
+(* numpy.allclose(x, y, atol=1e-8) with its default rtol=1e-5:  |x - y| <= atol + rtol * |y| *)
+Definition Qc_close (x y : Qc) : bool :=
+  Qle_bool (this (Qc_abs (Qcminus x y)))
+           (this (Qcplus (Q2Qc (1 # 100000000)) (Qcmult (Q2Qc (1 # 100000)) (Qc_abs y)))).
+(* DiscreteFactor.__eq__ (self = a, other = b) for factors with default state names: same scope set, same
+   cardinality per variable, and allclose(other aligned to self, self, atol=1e-8) at every named assignment *)
 Definition cpd_feq (a b : cpd) : bool :=
   forallb (fun x => memn x (c_scope b)) (c_scope a) && forallb (fun x => memn x (c_scope a)) (c_scope b)
   && forallb (fun x => Nat.eqb (card_of a x) (card_of b x)) (c_scope a)
-  && forallb (fun idx => let asg := asg_of (c_scope a) idx in Qc_eqb (cpd_get a asg) (cpd_get b asg))
+  && forallb (fun idx => let asg := asg_of (c_scope a) idx in Qc_close (cpd_get b asg) (cpd_get a asg))
              (all_idx (c_vcard a :: c_ecard a)).
 
 (* ------------------------------------------------------------------ the store *)
@@ -373,6 +389,7 @@ Inductive op :=
 | AddNodes (a : nat) (xs : list node) (ws : list nat) (lat : list bool)
 (* add_edge(u, v, weight) / add_edges_from(es, weights) *)
 | AddEdges (a : nat) (es : list (node * node)) (ws : list nat)
+| RemoveEdges (a : nat) (es : list (node * node)) (strict : bool)   (* remove_edge / remove_edges_from (networkx) *)
 | RemoveNodes (a : nat) (xs : list node)                     (* remove_node / remove_nodes_from *)
 | AddCpds (a : nat) (cs : list cpd)
 | RemoveCpds (a : nat) (xs : list node)
@@ -433,6 +450,11 @@ Definition step (s : state) (o : op) : state * out :=
             (commit s a (log_ew (set_bg m g')
                            (rev (map (fun ew => (fst (fst ew), snd (fst ew), snd ew))
                                      (combine done (ws ++ repeat 0 (length done)))))), o)
+      end
+  | RemoveEdges a es strict =>
+      match nth_error (ms s) a with
+      | None => (s, Err EBadId)
+      | Some m => let (g', o) := bn_remove_edges_g (bg m) es strict in (commit s a (set_bg m g'), o)
       end
   | RemoveNodes a xs =>
       match nth_error (ms s) a with
